@@ -16,7 +16,42 @@ def op_gen(ctx, runname, compl, basis=None, **kw):
         os.environ['ESR_VERIF'] = '1'
         os.environ['ESR_VERIF_BASIS'] = json.dumps(basis)
     import esr.generation.duplicate_checker as dc
+    _wrap_check_results(ctx)
     dc.main(runname, compl, **kw)
+
+
+def _wrap_check_results(ctx):
+    """Harness observation point (not ESR code): when the result check is entered, rank 0 copies the parameter-map file as the
+    combining stage has just written it to <scratch>/precheck/ (FS seam off, no collective) - the only moment at which the
+    combined, pair-cancelled chains exist before check_results rewrites the file."""
+    import shutil
+    import esr.generation.simplifier as simplifier
+    if getattr(simplifier.check_results, '_esrsim_wrapped', False):
+        simplifier.check_results._esrsim_ctx[0] = ctx
+        return
+    orig = simplifier.check_results
+    holder = [ctx]
+
+    def check_results(dirname, compl, *a, **k):
+        c = holder[0]
+        if c.rank == 0:
+            on = c.fs_state['on']
+            c.fs_state['on'] = False
+            try:
+                src = '%s/inv_subs_%d.txt' % (dirname, compl)
+                if os.path.exists(src):
+                    dd = c.scratch + '/precheck'
+                    os.makedirs(dd, exist_ok=True)
+                    shutil.copy(src, '%s/%s__%d.txt' % (dd, os.path.basename(os.path.dirname(dirname.rstrip('/'))), compl))
+            except Exception:
+                pass
+            finally:
+                c.fs_state['on'] = on
+        return orig(dirname, compl, *a, **k)
+    check_results._esrsim_wrapped = True
+    check_results._esrsim_ctx = holder
+    check_results.__doc__ = orig.__doc__
+    simplifier.check_results = check_results
 
 
 def op_npseed(ctx, seed):
